@@ -76,12 +76,13 @@ def main():
                 states=max(1, sum(x.get('steps', 0) for x in results)),
                 transitions=max(1, sum(x.get('clauses', 0) for x in results)),
                 traces_validated_against_impl=sum(x.get('validated_streams', 0) for x in results),
-                evaluations=sum(x.get('cbmc_calls', 0) for x in results),
+                evaluations=sum((1 if x.get('n_properties') else 0) + (1 if x.get('witness_points') else 0) for x in results),
+                bound_tuning_invocations=sum(max(0, x.get('cbmc_calls', 0) - (1 if x.get('n_properties') else 0) - (1 if x.get('witness_points') else 0)) for x in results),
                 distinct_nontrivial=len([x for x in held if x.get('vccs_remaining', 0) > 0 and x.get('variables', 0) > 0]),
                 obligations=len(results), discharged=len(held), inconclusive=len(inconcl), known_findings=len(known),
                 rule='one case = one bounded SAT query (harness x configuration x enumerated size) over the clang-lowered real tlx code; '
                      'states = symbolic-execution steps summed over the final run of every query, transitions = CNF clauses handed to the SAT solver; '
-                     'evaluations = CBMC invocations (bound tuning + final); a query is non-trivial when VCCs remain after simplification and the SAT instance has variables',
+                     'evaluations = final solver runs (main query + vacuity-witness twin), bound-tuning pre-passes are counted separately in bound_tuning_invocations and are zero when the committed bound cache is still valid; a query is non-trivial when VCCs remain after simplification and the SAT instance has variables',
                 explanation=getattr(spec, 'EXPLANATION', ''),
                 solver='cbmc 6.11.0 (MiniSat 2.2.1 unless a query says otherwise), --unwinding-assertions on every final run',
                 solver_time_s=round(sum(x.get('solver_s', 0) for x in results), 1),
